@@ -187,7 +187,7 @@ func runC17(c c17Case, r *rep.Report) (key, msg string, stats map[string]int64) 
 				so.SetCors(co)
 			}
 			w := rig.NewWorld(rig.Options{Server: so})
-			defer w.Shutdown()
+			defer w.Finish()
 			eff := w.Eng.Opts().Cookie()
 			if c.Cookie != "" {
 				// overlapping handshakes: each response must carry ITS session's id
